@@ -250,6 +250,12 @@ private:
         {
             targa_offset::type current_byte = this->_io_dev.read_uint8();
 
+            // a chunk never extends beyond the image
+            if( ( ( current_byte & 0x7F ) + 1u ) * bytes_per_pixel > image_size - pixel )
+            {
+                io_error( "Corrupted targa file: RLE chunk exceeds the image." );
+            }
+
             if( current_byte & 0x80 ) // run length chunk (high bit = 1)
             {
                 uint8_t chunk_length = current_byte - 127;
